@@ -1,5 +1,9 @@
 import RxModel.Driver.Proto
 import RxModel.Driver.SuiteTime
+import RxModel.Driver.SuiteSubject
+import RxModel.Driver.SuiteGroupBy
+import RxModel.Driver.SuiteFinalize
+import RxModel.Driver.SuiteFlatten
 /-
   rxdriver: reads the suite file on stdin, runs the model, prints one line per
   external event — the lines the harness prints for the real code.
@@ -49,6 +53,11 @@ def runCase (c : Case) : List String :=
   match c.suite with
   | "pipe" => runPipeCase c
   | "time" => runTimeCase c.id ((c.field "pipe").headD (.atom "")) c.events
+  | "subject" => runSubjectCase c.id c.events
+  | "behavior" => runBehaviorCase c.id (c.field "init") c.events
+  | "groupby" => runGroupByCase c.id c.field c.events
+  | "finalize" => runFinalizeCase c.id c.field c.events
+  | "flatten" => runFlatten c.id c.flavor c.field c.events
   | s => [s!"{c.id}.0 UNKNOWN-SUITE {s}"]
 
 partial def loop (h : IO.FS.Stream) (out : IO.FS.Stream) (cur : Case) : IO Unit := do
